@@ -35,6 +35,7 @@ func init() {
 func runC17(c *Ctx) {
 	c17UseAfterCheck(c)
 	c17APIFresh(c)
+	c17InterfaceListShared(c)
 	c17Options(c)
 	c17ConstMetrics(c)
 	c17Mirror(c)
@@ -1283,4 +1284,74 @@ func c17APIFresh(c *Ctx) {
 		}
 	}
 	c.R.Check(n >= 1, "R-C17-3", "crhttp:advertisement-stores", "", "", fmt.Sprintf("%d path(s) storing interfaceBody.Advertisement", n), ">= 1", "anchor-missing")
+}
+
+// c17InterfaceListShared (R-C17-10): cmd/corerad hands the parsed interface
+// list to the metrics, to the debug API and to BuildTasks; config.Config is
+// passed by value but the slice's backing array is one. Whoever compacts,
+// sorts, clears or overwrites that slice in place changes what every scrape and
+// API request iterates over (an interface named "" makes each scrape fail).
+// Structural form: outside package config no in-place slice mutator is applied
+// to a []config.Interface and no element of one is stored to, unless the slice
+// was made in the same function.
+func c17InterfaceListShared(c *Ctx) {
+	isIfaceSlice := func(t types.Type) bool {
+		sl, ok := t.Underlying().(*types.Slice)
+		if !ok {
+			return false
+		}
+		n, ok := sl.Elem().(*types.Named)
+		return ok && n.Obj().Pkg() != nil && n.Obj().Pkg().Path() == PkgConfig && n.Obj().Name() == "Interface"
+	}
+	mutators := map[string]bool{"Delete": true, "DeleteFunc": true, "Insert": true, "Compact": true, "CompactFunc": true, "Sort": true, "SortFunc": true,
+		"SortStableFunc": true, "Reverse": true, "Replace": true}
+	fresh := func(v ssa.Value) bool {
+		e := c.XO.Of(v)
+		return e.Op == an.OpMake || e.Op == an.OpAppend || e.Contains(func(x *an.Expr) bool { return x.Op == an.OpMake })
+	}
+	nFns := 0
+	for _, fn := range c.srcFuncs() {
+		if fn.Pkg == nil || !strings.HasPrefix(fn.Pkg.Pkg.Path(), Mod) || fn.Pkg.Pkg.Path() == PkgConfig {
+			continue
+		}
+		nFns++
+		for _, b := range fn.Blocks {
+			for _, in := range b.Instrs {
+				switch x := in.(type) {
+				case ssa.CallInstruction:
+					cc := x.Common()
+					name := ""
+					if bi, ok := cc.Value.(*ssa.Builtin); ok && bi.Name() == "clear" {
+						name = "clear"
+					} else if fo := an.CalleeObj(cc); fo != nil && fo.Pkg() != nil && (fo.Pkg().Path() == "slices" || fo.Pkg().Path() == "sort") && (mutators[fo.Name()] || fo.Pkg().Path() == "sort") {
+						name = fo.Pkg().Path() + "." + fo.Name()
+					}
+					if name == "" {
+						continue
+					}
+					for _, a := range cc.Args {
+						v := a
+						if mi, ok := v.(*ssa.MakeInterface); ok {
+							v = mi.X
+						}
+						if isIfaceSlice(v.Type()) && !fresh(v) {
+							c.R.Fail("R-C17-10", c.fname(fn)+":mutates-interface-list:"+name, c.fname(fn), c.pos(x.Pos()), name+" applied to a []config.Interface that this function did not make",
+								"the parsed interface list is never modified in place (filter into a new slice)",
+								"metrics and the debug API iterate over the same backing array: entries shift and a zeroed entry makes every scrape fail")
+						}
+					}
+				case *ssa.Store:
+					root, path := addrRoot(x.Addr)
+					if len(path) == 0 || path[0] != "[]" {
+						continue
+					}
+					if isIfaceSlice(root.Type()) && !fresh(root) {
+						c.R.Fail("R-C17-10", c.fname(fn)+":stores-into-interface-list", c.fname(fn), c.pos(x.Pos()), "store to an element of a []config.Interface that this function did not make",
+							"the parsed interface list is never modified in place", "metrics and the debug API see the altered entry")
+					}
+				}
+			}
+		}
+	}
+	c.R.Check(nFns >= 50, "R-C17-10", "module:functions-scanned", "", "", fmt.Sprintf("%d function(s) outside package config scanned", nFns), ">= 50", "anchor-missing")
 }
